@@ -414,8 +414,9 @@ pub fn check(case: &Case, avoid: Avoid) -> Outcome {
     let mut prev_state: Option<(BTreeMap<Pos, String>, BTreeMap<Pos, String>)> = None;
     for (i, op) in case.ops.iter().enumerate() {
         if avoid.paste_onto_spill {
-            if let Op::CopyPaste { src, trow, tcol, .. } = op {
-                let ws = &um.get_model().workbook.worksheets[0];
+            if let Op::CopyPaste { src, ts, trow, tcol, .. } = op {
+                // (the cells of the sheet the paste goes to)
+                let ws = &um.get_model().workbook.worksheets[crate::engine::ops::res_sheet(&um, *ts) as usize];
                 let onto = (*trow..*trow + src.h).any(|r| (*tcol..*tcol + src.w).any(|c| matches!(ws.cell(r, c), Some(Cell::SpillCell { .. }))));
                 if onto {
                     o.excluded += 1;
